@@ -358,16 +358,28 @@ thread_local! {
     static LAST_PANIC: std::cell::RefCell<Option<(String, String)>> = const { std::cell::RefCell::new(None) };
 }
 
-/// Records (location, message) of every panic instead of printing a backtrace.
+/// Records (location + innermost repository function, message) of every panic instead of printing it.
 pub fn install_panic_hook() {
     std::panic::set_hook(Box::new(|info| {
-        let loc = info.location().map(|l| format!("{}:{}", l.file(), l.line())).unwrap_or_default();
+        let mut loc = info.location().map(|l| format!("{}:{}", l.file(), l.line())).unwrap_or_default();
         let msg = info
             .payload()
             .downcast_ref::<String>()
             .cloned()
             .or_else(|| info.payload().downcast_ref::<&str>().map(|s| s.to_string()))
             .unwrap_or_default();
+        // innermost frame that belongs to the repository's crates
+        let bt = std::backtrace::Backtrace::force_capture().to_string();
+        for line in bt.lines() {
+            let l = line.trim();
+            let sym = l.split_once(": ").map(|x| x.1).unwrap_or(l);
+            if (sym.starts_with("bladeink::") || sym.starts_with("bladeink_compiler::") || sym.starts_with("rinklecate::") || sym.starts_with("<bladeink"))
+                && !sym.contains("verif")
+            {
+                loc = format!("{loc} in {sym}");
+                break;
+            }
+        }
         LAST_PANIC.with(|p| *p.borrow_mut() = Some((loc, msg)));
     }));
 }
@@ -379,18 +391,34 @@ pub fn take_last_panic() -> Option<(String, String)> {
 
 /// true when the panic location is inside the repository under test (not in the harness / std)
 pub fn panic_in_repo(loc: &str, repo_dir: &str) -> bool {
-    loc.starts_with(repo_dir) || loc.starts_with("runtime/") || loc.starts_with("compiler/") || loc.starts_with("rinklecate/")
+    loc.contains(" in bladeink") || loc.contains(" in <bladeink") || loc.contains(" in rinklecate") || loc.starts_with(repo_dir) || loc.starts_with("runtime/") || loc.starts_with("compiler/") || loc.starts_with("rinklecate/")
 }
 
-/// function-level identity of a panic site: file without line + normalised message
+/// function-level identity of a panic site: innermost repository function + normalised message
 pub fn panic_signature(loc: &str, msg: &str, repo_dir: &str) -> String {
-    let file = loc.rsplit_once(':').map(|x| x.0).unwrap_or(loc);
-    let file = file.strip_prefix(repo_dir).unwrap_or(file).trim_start_matches('/');
-    let mut m: String = msg.chars().map(|c| if c.is_ascii_digit() { '#' } else { c }).collect();
+    let place = match loc.split_once(" in ") {
+        Some((_, sym)) => {
+            // drop generic hashes and closure markers
+            let s = sym.split("::h").next().unwrap_or(sym);
+            s.replace("::{{closure}}", "").replace("<impl bladeink::story::Story>::", "Story::")
+        }
+        None => {
+            let file = loc.rsplit_once(':').map(|x| x.0).unwrap_or(loc);
+            file.strip_prefix(repo_dir).unwrap_or(file).trim_start_matches('/').to_string()
+        }
+    };
+    // message kind only: what was unwrapped / which arithmetic, without the payload
+    let mut m = msg.to_string();
+    for cut in [" is not a char boundary", " value: ", ": \"", " but the index is", " is out of range", " (", ": '"] {
+        if let Some(i) = m.find(cut) {
+            m.truncate(i);
+        }
+    }
+    let mut m: String = m.chars().map(|c| if c.is_ascii_digit() { '#' } else { c }).collect();
     while m.contains("##") {
         m = m.replace("##", "#");
     }
-    format!("panic@{}#{}", file, truncate(&m, 70))
+    format!("panic@{}#{}", place, truncate(&m, 60))
 }
 
 impl Report {
